@@ -109,6 +109,7 @@ func checkC02(c *Ctx) {
 	ruleRebase(c)
 	ruleCharAdvance(c)
 	ruleSpanLen(c)
+	ruleResync(c)
 }
 
 // ROOT-CUT: the Source of a root block ends exactly where the span of the block it carries ends.
